@@ -4,7 +4,7 @@ from __future__ import annotations
 from .core import (  # noqa: F401
     And, Eq, If, Iff, Implies, Ne, Not, Or, NONE, SBool, SBytes, SInt, SList, SObj, SStr, STuple, SDict, SSeq, SEnum,
     SUnion, SConst, be16, code_at, concat_all, contains, endswith, from_codes, isa, isnone, len_, lift, startswith,
-    truth, is_sym, Unsupported,
+    truth, is_sym, Unsupported, is_const,
 )
 from .vc import Outcome  # noqa: F401
 
